@@ -553,6 +553,10 @@ def check(program, rep):
         "C16-R2", r2_array, program, folder, rep) or (None,) * 4
     rep.guard("C16-R3", r3_representable, program, folder, rep, widths, fl, n_bits)
     rep.guard("C16-R4", r4_inverse, program, rep)
+    # the signed flag selects the clip bounds, the dtype and the sign
+    # handling: each reader takes it the same way (FALSY, falsy.py)
+    from .. import falsy
+    rep.guard("C16-R2", falsy.rule, program, rep, "C16-R2", [MOD])
     rep.floor("C16-R2", 18)
     return finish(rep, program, EXPLANATION, NOT_DECIDED,
                   trusted=["IEEE-754 double conversion of Python ints in the "
